@@ -579,3 +579,123 @@ def _matcher(world, did):
 
 CHECKS = {"C11": check_C11_runs, "C01": check_C01, "C02": check_C02, "C03": check_C03, "C09": check_C09,
           "C10": check_C10, "C12": check_C12, "C13": check_C13}
+
+
+# ---------------------------------------------------------------------------
+# C06: scenario outline expansion
+# ---------------------------------------------------------------------------
+class _D(object):
+    def __init__(self, name, index, id_=None):
+        self.name = name
+        self.index = index
+        self.id = id_ if id_ is not None else name
+
+
+def check_C06(world, hist, pred):
+    out = []
+    if hist.get("escaped") or hist.get("config_error"):
+        return out
+    idx = census_index(hist)
+    schema = world["cfg"].get("outline_schema") or u"{name} -- @{row.id} {examples.name}"
+    # table-API mutations performed by hooks (the expansion must be rebuilt accordingly)
+    muts = {}
+    mutated_steps = set()
+    for e in hist["events"]:
+        for d in e["did"]:
+            if d[0] == "table_add_row":
+                muts.setdefault(d[1], []).append(("row", d[2], d[3]))
+            elif d[0] == "table_add_column":
+                muts.setdefault(d[1], []).append(("col", d[2], d[3], d[4]))
+            elif d[0] == "step_table_mutated" and e["kind"] == "step":
+                mutated_steps.add((e.get("scen"), e.get("idx")))
+    feats = {f["id"]: f for f in world["features"]}
+    for fnode in hist["census"]:
+        feat = feats.get(fnode["id"])
+        if feat is None:
+            continue
+        outlines = [(it, None) for it in feat["items"] if it["kind"] == "outline"]
+        for it in feat["items"]:
+            if it["kind"] == "rule":
+                outlines += [(x, it) for x in it["items"] if x["kind"] == "outline"]
+        for ol, rule in outlines:
+            node = idx.get(ol["id"])
+            if node is None:
+                continue
+            ol2 = ol
+            if ol["id"] in muts:
+                import copy
+                ol2 = copy.deepcopy(ol)
+                for m in muts[ol["id"]]:
+                    ex = ol2["examples"][m[1]]
+                    if m[0] == "row":
+                        ex["rows"].append(list(m[2]))
+                    else:
+                        ex["headings"].append(m[2])
+                        for r in ex["rows"]:
+                            r.append(m[3])
+            rows = W.outline_rows(ol2)
+            key_sfx = ":after-table-api-change" if ol["id"] in muts else ""
+            if len(node["items"]) != len(rows):
+                rule_id = "not-rebuilt-after-table-change" if ol["id"] in muts else "row-count-order"
+                out.append(V("C06", rule_id, "count" + key_sfx, outline=ol["id"],
+                             model=len(rows), actual=len(node["items"])))
+                continue
+            # template must be untouched
+            for ti, (ts, ws) in enumerate(zip(node["template_steps"], ol["steps"])):
+                wt = ws.get("table")
+                if ts["name"] != ws["text"] or (ts["text"] or None) != (ws.get("doc") or None) or \
+                        (wt is not None and ts["table"] is not None and
+                         (ts["table"]["rows"] != wt["rows"] or ts["table"]["headings"] != wt["headings"])):
+                    out.append(V("C06", "template-mutated", "step-%s" % ("table" if ts["name"] == ws["text"] and (ts["text"] or None) == (ws.get("doc") or None) else "text"),
+                                 outline=ol["id"], step=ti, census=ts, world=ws))
+                    break
+            n_bg = None
+            for rn, row in zip(node["items"], rows):
+                ex = ol2["examples"][row["e"]]
+                want_name = schema.format(name=row["name_core"],
+                                          examples=_D(row["ex_name"], row["e"] + 1),
+                                          row=_D("%d.%d" % (row["e"] + 1, row["r"] + 1), row["r"] + 1,
+                                                 "%d.%d" % (row["e"] + 1, row["r"] + 1)))
+                if rn["name"] != want_name:
+                    out.append(V("C06", "row-name", "name" + key_sfx, outline=ol["id"], row=row["id"],
+                                 model=want_name, actual=rn["name"], schema=schema))
+                    break
+                if rn["tags"] != row["tags"]:
+                    out.append(V("C06", "row-tags", "tags" + key_sfx, outline=ol["id"], row=row["id"],
+                                 model=row["tags"], actual=rn["tags"]))
+                    break
+                want_line = world["lines"].get(row["id"])
+                if want_line is not None and rn["line"] != want_line:
+                    out.append(V("C06", "row-line", "line", outline=ol["id"], row=row["id"],
+                                 model=want_line, actual=rn["line"]))
+                    break
+                own = rn["steps"][len(rn["steps"]) - rn["n_own_steps"]:] if rn["n_own_steps"] else []
+                nbg = len(rn["steps"]) - rn["n_own_steps"]
+                if len(own) != len(row["steps"]):
+                    out.append(V("C06", "step-text", "step-count", row=row["id"], model=len(row["steps"]), actual=len(own)))
+                    break
+                bad = False
+                for si, (cs, ws) in enumerate(zip(own, row["steps"])):
+                    if cs["name"] != ws["text"]:
+                        out.append(V("C06", "step-text", "name" + key_sfx, row=row["id"], step=si,
+                                     model=ws["text"], actual=cs["name"]))
+                        bad = True
+                        break
+                    if (cs["text"] or None) != (ws.get("doc") or None):
+                        out.append(V("C06", "step-docstring", "doc" + key_sfx, row=row["id"], step=si,
+                                     model=ws.get("doc"), actual=cs["text"]))
+                        bad = True
+                        break
+                    wt = ws.get("table")
+                    if wt is not None and (rn["id"], nbg + si) not in mutated_steps:
+                        ct = cs["table"]
+                        if ct is None or ct["headings"] != wt["headings"] or ct["rows"] != wt["rows"]:
+                            leak = any(c == "MUT" for r in (ct or {}).get("rows", []) for c in r) or \
+                                "MUT" in ((ct or {}).get("headings") or [])
+                            out.append(V("C06", "row-leak" if leak else "step-table", "table" + key_sfx,
+                                         row=row["id"], step=si, model=wt, actual=ct))
+                            bad = True
+                            break
+                if bad:
+                    break
+    return out
